@@ -10,6 +10,7 @@ import (
 	"fmt"
 	"math"
 	"os"
+	"runtime"
 	"sort"
 	"strconv"
 	"strings"
@@ -113,23 +114,29 @@ func (r *vrunner) fill() {
 	if !r.slow {
 		return
 	}
-	// the idle reader takes the first filler at once and then sleeps: one more than the queue holds, and topped up until
-	// the queue is full at the moment the device is called
-	for i := 0; i < cap(r.midiOut)+1; i++ {
-		r.midiOut <- sinkFiller
-	}
-	for len(r.midiOut) < cap(r.midiOut) {
-		select {
-		case r.midiOut <- sinkFiller:
-		default:
+	// filled without ever waiting (the reader may be stalled); the idle reader takes its first filler as soon as it is
+	// scheduled and then sleeps, so the queue is topped up a few times: it is full at the moment the device is called
+	top := func() {
+		for len(r.midiOut) < cap(r.midiOut) {
+			select {
+			case r.midiOut <- sinkFiller:
+			default:
+			}
+		}
+		if r.sigAck != nil {
+			for len(r.sigs) < cap(r.sigs) {
+				select {
+				case r.sigs <- syscall.SIGTERM:
+				default:
+				}
+			}
 		}
 	}
-	if r.sigAck != nil {
-		select {
-		case r.sigs <- syscall.SIGTERM:
-		default:
-		}
+	for k := 0; k < 3; k++ {
+		top()
+		runtime.Gosched()
 	}
+	top()
 }
 
 // settle waits until the slow reader has taken everything sent so far
